@@ -64,7 +64,7 @@ func HarnessC11() {
 		"/u/only2.tpl": "2" + mX2,
 	}}
 	set := NewSet("verif", l1, l2)
-	form := verifChoice(15)
+	form := verifChoice(17)
 	verifObserve("form", form)
 	var src, want string
 	var fetched []string // names expected in the union of both loaders' Get logs
@@ -105,6 +105,16 @@ func HarnessC11() {
 		ctx["l"] = []string{"1"}
 		want = "(Q)(" + V + "R" + V + V + "11)"
 		fetched = []string{"/t/sub/p.tpl"}
+	case 15: // a child in a sub-directory extends a parent elsewhere: its relative include is relative to the CHILD
+		l1.files["/t/sub/child.tpl"] = "{% extends \"../base.tpl\" %}{% block k %}{% include \"b.tpl\" %}{% import \"../lib.tpl\" m %}{{ m(v) }}{% endblock %}"
+		src = "{% include \"sub/child.tpl\" %}"
+		want = mBase + mB + "[" + V + W + "]" + mLib + V
+		fetched = []string{"/t/sub/child.tpl", "/t/base.tpl", "/t/sub/b.tpl", "/t/lib.tpl"}
+	case 16: // the same child rendered directly (it is the template being executed)
+		l1.files["/t/sub/child.tpl"] = "{% extends \"../base.tpl\" %}{% block k %}{% ssi \"b.tpl\" parsed %}{% endblock %}"
+		src = "{% extends \"sub/child.tpl\" %}"
+		want = mBase + mB + "[" + V + W + "]"
+		fetched = []string{"/t/sub/child.tpl", "/t/base.tpl", "/t/sub/b.tpl"}
 	case 5: // missing name is an error
 		src = "{% include \"nope.tpl\" %}"
 		wantErr = true
